@@ -1,0 +1,6 @@
+//go:build !verif
+// +build !verif
+
+package ledgerstore
+
+func crashPoint(point int) {}
